@@ -339,11 +339,72 @@ def lvalue_dep(l):
 MODE_READ, MODE_WRITE = "Reading", "Writing"
 
 
+def iterator_loop(s):
+    """for (auto it = c.begin(); it != c.end(); ++it) whose body never steps `it` -> the node c, else None"""
+    if s.get("k") != "For" or not is_node(s.get("init")) or not is_node(s.get("cond")) or not is_node(s.get("inc")):
+        return None
+    init, cond, inc = s["init"], s["cond"], s["inc"]
+    if init["k"] != "Decl" or len(init.get("vars", [])) != 1:
+        return None
+    v = init["vars"][0]
+
+    def peel(e):
+        while is_node(e) and e["k"] in ("Cast", "Construct") and (e.get("e") is not None or len(e.get("args", [])) == 1):
+            e = e["e"] if e.get("e") is not None else e["args"][0]
+        return e
+
+    def is_it(e):
+        e = peel(e)
+        return is_node(e) and e["k"] == "Ref" and e.get("id") == v["id"]
+
+    b = peel(v.get("init"))
+    if not (is_node(b) and b["k"] == "Call" and b.get("short") in ("begin", "cbegin") and is_node(b.get("recv"))):
+        return None
+    cont = b["recv"]
+    if cond["k"] == "Binary" and cond["op"] == "!=":
+        l, r = cond["l"], cond["r"]
+    elif cond["k"] == "OpCall" and cond.get("op") == "!=" and len(cond.get("args", [])) == 2:
+        l, r = cond["args"]
+    else:
+        return None
+    if is_it(r):
+        l, r = r, l
+    r = peel(r)
+    if not (is_it(l) and is_node(r) and r["k"] == "Call" and r.get("short") in ("end", "cend") and is_node(r.get("recv"))
+            and show(r["recv"]) == show(cont)):
+        return None
+    if inc["k"] == "Unary" and inc["op"] == "++":
+        t = inc["e"]
+    elif inc["k"] == "OpCall" and inc.get("op") == "++" and inc.get("args"):
+        t = inc["args"][0]
+    else:
+        return None
+    if not is_it(t):
+        return None
+    for x in walk(s.get("body") or {}):
+        t = x["l"] if x["k"] == "Assign" else (x["e"] if x["k"] == "Unary" and x["op"] in ("++", "--") else
+                                               (x["args"][0] if x["k"] == "OpCall" and x.get("op") in ("++", "--", "=", "+=", "-=") and x.get("args") else None))
+        if t is not None and is_it(t):
+            return None
+    return cont
+
+
+LENGTH_CHANGERS = ("resize", "clear", "push_back", "emplace_back", "insert", "erase", "pop_back", "assign", "swap", "SetSize")
+
+
 def range_sizes(body):
     """{id(RangeFor node): show(count)} where the loop's container was resized to `count` by the nearest preceding sibling
     statement (searching outwards through the enclosing blocks): the number of iterations of `for (x : c)` after
     `c.resize(n)` is n, which is what the wire format repeats the element `n` times for."""
     out = {}
+    unsized = []  # (loop node, container text, [(condition text, polarity)] enclosing it)
+    changes = {}  # container text -> [(short, size text, enclosing conditions)]
+
+    def note_changes(n, conds):
+        for x in walk(n):
+            if x["k"] == "Call" and x.get("short") in LENGTH_CHANGERS and is_node(x.get("recv")):
+                changes.setdefault(show(x["recv"]), []).append(
+                    (x["short"], show(x["args"][0]) if x.get("args") else None, list(conds), x))
 
     def resize_of(st, cont):
         if is_node(st) and st["k"] == "Call" and st.get("short") == "resize" and is_node(st.get("recv")) and st.get("args") \
@@ -351,15 +412,23 @@ def range_sizes(body):
             return show(st["args"][0])
         return None
 
-    def rec(n, chain):
+    def rec(n, chain, conds=()):
         if not is_node(n):
             return
         k = n["k"]
         if k == "Compound":
             for i, c in enumerate(n.get("body", [])):
-                rec(c, [(n, i)] + chain)
+                rec(c, [(n, i)] + chain, conds)
             return
+        if k == "If":
+            note_changes(n.get("cond") or {}, conds)
+            rec(n.get("then"), chain, conds + ((show(n["cond"]), True),))
+            rec(n.get("else"), chain, conds + ((show(n["cond"]), False),))
+            return
+        if k not in ("For", "While", "Do", "RangeFor", "Switch", "Case", "Default", "Try", "OtherStmt"):
+            note_changes(n, conds)
         algo_range = None
+        it_range = iterator_loop(n) if k == "For" else None
         if k == "Call" and n.get("ext") and n.get("short") in ("for_each", "transform", "any_of", "all_of", "none_of", "find_if",
                                                                 "count_if", "copy_if", "remove_if") and n.get("args"):
             f0 = n["args"][0]
@@ -367,8 +436,8 @@ def range_sizes(body):
                 f0 = f0["e"]
             if is_node(f0) and f0["k"] == "Call" and f0.get("short") in ("begin", "cbegin") and is_node(f0.get("recv")):
                 algo_range = f0["recv"]  # std::for_each(c.begin(), c.end(), f) repeats like `for (x : c)`
-        if k == "RangeFor" or algo_range is not None:
-            cont = show(n["range"] if k == "RangeFor" else algo_range)
+        if k == "RangeFor" or algo_range is not None or it_range is not None:
+            cont = show(n["range"] if k == "RangeFor" else (algo_range if algo_range is not None else it_range))
             found = None
             for comp, idx in chain:
                 for j in range(idx - 1, -1, -1):
@@ -379,17 +448,47 @@ def range_sizes(body):
                     break
             if found:
                 out[id(n)] = found
+            else:
+                unsized.append((n, cont, conds))
         for key in ("then", "else", "body", "sub", "init"):
             c = n.get(key)
             if is_node(c) and key != "init":
-                rec(c, chain)
+                rec(c, chain, conds)
         for h in n.get("handlers", []) if k == "Try" else []:
-            rec(h, chain)
+            rec(h, chain, conds)
         for c in n.get("kids", []) if k == "OtherStmt" else []:
-            rec(c, chain)
+            rec(c, chain, conds)
 
     rec(body, [])
+    # a loop in a later block: the container's only length change in the whole function is one resize, made earlier under
+    # version conditions that all enclose the loop as well (`if (v >= 132) c.resize(n); ... if (v >= 132) for (x : c)`)
+    for n, cont, conds in unsized:
+        ch = changes.get(cont, [])
+        if len(ch) != 1 or ch[0][0] != "resize" or ch[0][1] is None:
+            continue
+        _, size, rconds, call = ch[0]
+        if _loc_key(call) >= _loc_key(n):
+            continue
+        if all(c in conds and _is_version_text(body, c[0]) for c in rconds):
+            out[id(n)] = size
     return out
+
+
+def _loc_key(n):
+    try:
+        parts = (n.get("loc") or "").rsplit(":", 2)
+        return (int(parts[-2]), int(parts[-1]))
+    except (ValueError, IndexError):
+        return (0, 0)
+
+
+def _is_version_text(body, text):
+    """is the condition rendered as `text` (somewhere in body) built only from version accessors and constants?"""
+    import versions as _versions
+    for x in walk(body):
+        if x["k"] == "If" and is_node(x.get("cond")) and show(x["cond"]) == text:
+            return _versions.pure_version_init(x["cond"])
+    return False
 
 
 def counted_loop(s):
@@ -443,6 +542,7 @@ class Flow:
         self.partition = True
         self.loop_stack = []  # canonical descriptions of the loops enclosing the node being visited
         self.loop_cond_keys = []  # for canonical counted loops: the guard key of the loop condition (it is the loop, not a gate)
+        self._expander = None  # renders loop bounds with the locals that are defined once replaced by their initialiser
         self._range_sized = None  # id(RangeFor) -> rendering of the count its container was resized to just before
         self.exits = []  # (kind, node, state) for every return / fall-off-end, final pass only
 
@@ -793,16 +893,25 @@ class Flow:
             return back, join(f, b), r
 
         cond_key = None
-        if k == "RangeFor":
+        it_range = iterator_loop(s) if k == "For" else None
+        if k == "RangeFor" or it_range is not None:
             if self._range_sized is None:
                 self._range_sized = range_sizes(self.fn.get("body"))
             sized = self._range_sized.get(id(s))
             # a range loop over a container that was just resized to n repeats n times: same canonical form as the counted loop
-            self.loop_stack.append(("repeat " + sized) if sized else ("each " + show(s["range"])))
+            self.loop_stack.append(("repeat " + sized) if sized else ("each " + show(s["range"] if k == "RangeFor" else it_range)))
+            if it_range is not None:
+                c0 = s["cond"]
+                if c0["k"] == "OpCall":
+                    cond_key = "(%s == %s)" % tuple(sorted([show(c0["args"][0]), show(c0["args"][1])]))
+                else:
+                    cond_key = norm_cmp(c0)[0]
         elif s.get("cond") is not None:
             cnt = counted_loop(s)
             if cnt is not None:
-                self.loop_stack.append("repeat " + show(cnt))
+                if self._expander is None:
+                    self._expander = self.F.expander(self.fn)[0] if self.F is not None and hasattr(self.F, "expander") else show
+                self.loop_stack.append("repeat " + self._expander(cnt))
                 cond_key = norm_cmp(s["cond"])[0]
             else:
                 self.loop_stack.append("while " + show(s["cond"]))
